@@ -329,63 +329,113 @@ class Model:
 
     # ------------------------------------------------------------------ happens-before (C++20) over SC executions
     def build_hb(s):
-        """boolean hb matrix over events (cubic closure); returns dict (a.uid,b.uid)->Bool"""
-        evs = [e for e in s.events]
-        n = len(evs)
-        idx = {e.uid: i for i, e in enumerate(evs)}
+        """C++20 happens-before over the SC executions, as vector clocks: VC[e][t] = largest program-order position of thread t
+        that happens before (or is) event e.  hb = (sequenced-before U synchronizes-with)+ where synchronizes-with covers
+        release/acquire accesses, release sequences continued by RMWs, release fences before atomic writes and atomic reads before
+        acquire fences.  vf_setup happens before every thread, every thread happens before vf_check."""
         cons = []
-        # base edges
-        base = [[None] * n for _ in range(n)]
-        for a in evs:
-            for b in evs:
-                if a is b: continue
-                terms = []
-                if a.tid == b.tid:
-                    # sequenced-before along a common path: same thread, a before b, both enabled
-                    if a.idx < b.idx: terms.append(z3.BoolVal(True))
-                else:
-                    sw = s.sw_cond(a, b)
-                    if sw is not None: terms.append(sw)
-                base[idx[a.uid]][idx[b.uid]] = z3.Or(*terms) if terms else None
-        hb = {}
-        for i in range(n):
-            for j in range(n):
-                if i != j:
-                    hb[(i, j)] = z3.Bool('hb_%d_%d' % (i, j))
-        # hb is the least fixpoint; encode as: hb(i,j) <-> base(i,j) or exists k hb(i,k) and hb(k,j) with a rank to forbid self-support
-        rank = {}
-        for (i, j) in hb:
-            rank[(i, j)] = z3.Int('hbr_%d_%d' % (i, j))
-        for (i, j), v in hb.items():
-            alts = []
-            b0 = base[i][j]
-            ei, ej = s.en[evs[i].uid], s.en[evs[j].uid]
-            if b0 is not None: alts.append(b0)
-            for k in range(n):
-                if k != i and k != j:
-                    alts.append(z3.And(hb[(i, k)], hb[(k, j)], rank[(i, k)] < rank[(i, j)], rank[(k, j)] < rank[(i, j)]))
-            cons.append(v == z3.And(ei, ej, s.clk[evs[i].uid] < s.clk[evs[j].uid], z3.Or(*alts) if alts else z3.BoolVal(False)))
-            cons.append(rank[(i, j)] >= 0)
-        s.hb = hb; s.hb_idx = idx; s.hb_evs = evs
+        T = len(s.threads)
+        check_tid = T if s.has_check else None
+        tids = list(range(1, T + 1))
+        NEG = -1
+        I = z3.IntVal
+        def mx(a, b):
+            return z3.If(a >= b, a, b)
+        VC = {}; RS = {}; LF = {}; PA = {}
+        # per-thread chains in creation order
+        per = {t: [] for t in tids}
+        for e in s.events: per[e.tid].append(e)
+        # rf lookup for units: whole (non-split) events only; split (mixed-size) accesses are treated per parent using byte 0's choice
+        rfsrc = {}
+        for addr, evs in s.byaddr.items():
+            for r in evs:
+                if r.kind in ('R', 'RMW', 'WAIT') and r.uid in s.rf:
+                    par = getattr(r, 'parent', r)
+                    if par.uid not in rfsrc: rfsrc[par.uid] = (s.rf[r.uid][0], [getattr(w, 'parent', w) for w in s.rf[r.uid][1]])
+        for t in tids:
+            for e in per[t]:
+                for u in tids:
+                    VC[(e.uid, u)] = z3.Int('vc_%s_%d' % (e.uid, u))
+                    LF[(e.uid, u)] = z3.Int('lf_%s_%d' % (e.uid, u))
+                    PA[(e.uid, u)] = z3.Int('pa_%s_%d' % (e.uid, u))
+                    if e.kind in ('W', 'RMW'): RS[(e.uid, u)] = z3.Int('rs_%s_%d' % (e.uid, u))
+        def rs_of_source(r, u):
+            """release information carried by the write r reads from (NEG for the initial value)"""
+            if r.uid not in rfsrc: return I(NEG)
+            rfv, cands = rfsrc[r.uid]
+            out = I(NEG)
+            for i, w in enumerate(cands):
+                out = z3.If(rfv == i + 1, RS[(w.uid, u)], out)
+            return out
+        for t in tids:
+            prev = None
+            for e in per[t]:
+                en = s.en[e.uid]
+                for u in tids:
+                    pv = VC[(prev.uid, u)] if prev is not None else I(NEG)
+                    plf = LF[(prev.uid, u)] if prev is not None else I(NEG)
+                    ppa = PA[(prev.uid, u)] if prev is not None else I(NEG)
+                    if check_tid is not None and t == check_tid:
+                        cons.append(VC[(e.uid, u)] == I(BIG)); cons.append(LF[(e.uid, u)] == I(NEG)); cons.append(PA[(e.uid, u)] == I(NEG))
+                        if e.kind in ('W', 'RMW'): cons.append(RS[(e.uid, u)] == I(NEG))
+                        continue
+                    own = I(e.idx) if u == t else pv
+                    val = own if u == t else pv
+                    # acquire side
+                    if e.kind in ('R', 'RMW', 'WAIT') and e.order != 'na':
+                        src = rs_of_source(e, u)
+                        if e.order in ACQ or (e.kind == 'RMW' and e.order in ACQ):
+                            val = mx(val, src)
+                        new_pa = mx(ppa, src)
+                    else:
+                        new_pa = ppa
+                    if e.kind == 'F' and e.order in ACQ:
+                        val = mx(val, ppa)
+                    if u == t: val = I(e.idx)
+                    cons.append(VC[(e.uid, u)] == z3.If(en, val, pv))
+                    cons.append(PA[(e.uid, u)] == z3.If(en, new_pa, ppa))
+                    # release fences
+                    if e.kind == 'F' and e.order in REL:
+                        cons.append(LF[(e.uid, u)] == z3.If(en, VC[(e.uid, u)], plf))
+                    else:
+                        cons.append(LF[(e.uid, u)] == plf)
+                    # release information of writes
+                    if e.kind in ('W', 'RMW') and e.order != 'na':
+                        r = plf                                     # a release fence sequenced before an atomic write
+                        if e.order in REL: r = mx(r, VC[(e.uid, u)])
+                        if e.kind == 'RMW': r = mx(r, rs_of_source(e, u))   # RMWs continue the release sequence they read from
+                        cons.append(RS[(e.uid, u)] == r)
+                    elif e.kind in ('W', 'RMW'):
+                        cons.append(RS[(e.uid, u)] == I(NEG))
+                prev = e
+        s.VC = VC
         return cons
 
-    def sw_cond(s, a, b):
-        """a synchronizes-with b (different threads). Covers: release write / RMW -> acquire read reading from its release
-        sequence (the write itself or an RMW chain that starts at it), and the fence forms via atomics sequenced around fences."""
-        # direct: a is a release write (or RMW), b is an acquire read that reads from a or from an RMW chain headed by a
-        if a.kind in ('W', 'RMW') and b.kind in ('R', 'RMW', 'WAIT') and a.addr == b.addr and a.order in REL:
-            acq = b.order in ACQ
-            if acq:
-                return s.reads_from_relseq(b, a)
-        return None
-
-    def reads_from_relseq(s, r, head, depth=3):
-        """r reads from head, or from an RMW that (transitively, <= depth) reads from head"""
-        rfv, cands = s.rf[r.uid]
-        alts = []
-        for i, w in enumerate(cands):
-            if w is head:
-                alts.append(rfv == i + 1)
-            elif w.kind == 'RMW' and depth > 0 and w.addr == head.addr:
-                alts.append(z3.And(rfv == i + 1, s.reads_from_relseq(w, head, depth - 1)))
-        return z3.Or(*alts) if alts else z3.BoolVal(False)
+    def race_items(s):
+        """pairs of conflicting accesses of different threads, at least one non-atomic, with the condition 'both enabled and unordered by hb'"""
+        out = []
+        acc = [e for e in s.events if e.kind in ('R', 'W', 'RMW', 'WAIT')]
+        T = len(s.threads)
+        check_tid = T if s.has_check else None
+        byobj = {}
+        for e in acc: byobj.setdefault(e.obj, []).append(e)
+        for obj, evs in byobj.items():
+            for i in range(len(evs)):
+                a = evs[i]
+                for j in range(i + 1, len(evs)):
+                    b = evs[j]
+                    if a.tid == b.tid or a.tid == check_tid or b.tid == check_tid: continue
+                    if a.addr + a.width <= b.addr or b.addr + b.width <= a.addr: continue
+                    if a.kind == 'R' and b.kind == 'R': continue
+                    if a.kind in ('R', 'WAIT') and b.kind in ('R', 'WAIT'): continue
+                    if a.order != 'na' and b.order != 'na': continue
+                    hb_ab = s.VC[(b.uid, a.tid)] >= a.idx
+                    hb_ba = s.VC[(a.uid, b.tid)] >= b.idx
+                    wa = s.en_w(a) if a.kind == 'RMW' else s.en[a.uid]
+                    wb = s.en_w(b) if b.kind == 'RMW' else s.en[b.uid]
+                    # a failed cmpxchg is only a read
+                    ena = s.en[a.uid]; enb = s.en[b.uid]
+                    if a.kind == 'RMW' and b.kind in ('R', 'WAIT'): ena = wa
+                    if b.kind == 'RMW' and a.kind in ('R', 'WAIT'): enb = wb
+                    out.append((a, b, z3.And(ena, enb, z3.Not(hb_ab), z3.Not(hb_ba))))
+        return out
